@@ -246,6 +246,9 @@ func (c *connectClient) NewConn(
 	spec Spec,
 	header http.Header,
 ) StreamingClientConn {
+	// The header map may be the caller's (a Request that is being re-sent): what
+	// an earlier call announced doesn't apply to this one.
+	delete(header, connectHeaderTimeout)
 	if deadline, ok := ctx.Deadline(); ok {
 		millis := int64(time.Until(deadline) / time.Millisecond)
 		if millis >= 0 {
